@@ -60,13 +60,13 @@ type viol struct {
 }
 
 type sessResult struct {
-	Idx      int              `json:"idx"`
-	Outcomes []string         `json:"outcomes"` // one per letter
-	Viol     []viol           `json:"viol,omitempty"`
-	Blocked  string           `json:"blocked,omitempty"` // non-empty: a required reply did not arrive in time (candidate, re-run by the parent)
-	Counters map[string]int64 `json:"counters,omitempty"`
+	Idx      int                 `json:"idx"`
+	Outcomes []string            `json:"outcomes"` // one per letter
+	Viol     []viol              `json:"viol,omitempty"`
+	Blocked  string              `json:"blocked,omitempty"` // non-empty: a required reply did not arrive in time (candidate, re-run by the parent)
+	Counters map[string]int64    `json:"counters,omitempty"`
 	Sets     map[string][]string `json:"sets,omitempty"`
-	Notes    []string         `json:"notes,omitempty"`
+	Notes    []string            `json:"notes,omitempty"`
 }
 
 func (r *sessResult) count(k string, n int64) {
@@ -367,10 +367,10 @@ type sessionRun struct {
 	P   *hpeer
 	W   *hpeer
 	// bookkeeping of the replies owed to P
-	owed      []owedReply
-	checkedP  int // messages of P already checked against the caps
-	checkedW  int
-	wReplies  int
+	owed       []owedReply
+	checkedP   int // messages of P already checked against the caps
+	checkedW   int
+	wReplies   int
 	postMortem bool // a panic was observed: the real node is gone, nothing after it is judged
 }
 
@@ -460,7 +460,7 @@ func (sr *sessionRun) run() {
 		}
 	}
 
-	if s.Resp != nil && alive && !sr.postMortem && res.Blocked == "" {
+	if s.Resp != nil && !sr.postMortem && res.Blocked == "" {
 		// The dialogue is driven by the node: its downloader polls its queue on a 100 ms ticker and its fetcher asks for an
 		// announced block after 400 ms. Keep observing while the node keeps sending requests; how long to watch is the only
 		// thing the clock decides here, no verdict depends on it.
